@@ -48,6 +48,10 @@ EXTRA = [
     "select a, (select max(c) from t2 where false) from t1",
     "select a from t1 order by (select max(c) from t2)",
     "select a from t1 where b > (select max(c) from t2 where 1 = 0)",
+    # correlated scalar subqueries with their own GROUP BY, selecting the grouping key
+    "select a from t1 where b > (select t2.a + max(t2.c) from t2 where t2.a = t1.a group by t2.a)",
+    "select a, b from t1 where b >= (select max(t2.c) from t2 where t2.a = t1.a group by t2.a)",
+    "select a from t1 where b > (select t2.a from t2 where t2.a = t1.a group by t2.a having count(*) > 0)",
     "select a from t1 limit (select count(*) from t2)",
     "select a from t1 order by a limit 1 + 1",
     "select a from t1 offset 1",
